@@ -59,6 +59,16 @@ fn window(len: usize, t: usize) -> bool {
     t >= 1 && (t - 1) * BODY < stream && stream <= t * BODY
 }
 
+/// an overflow cell by the documented layout (used for the hand-made cells of the malformed cases)
+fn mk_cell(size: usize, hash: [u8; 32], pns: &[u32]) -> Vec<u8> {
+    let mut c = (size as u64).to_le_bytes().to_vec();
+    c.extend_from_slice(&hash);
+    for p in pns {
+        c.extend_from_slice(&p.to_le_bytes());
+    }
+    c
+}
+
 /// header + page numbers + bytes of a page, by the documented layout
 fn parse_page(pg: &[u8]) -> Option<(Vec<u32>, Vec<u8>)> {
     let np = u16::from_le_bytes([pg[0], pg[1]]) as usize;
@@ -600,8 +610,19 @@ pub fn run(seed: u64, cases: usize, out: &mut Sink) {
             c.out.nontrivial(&format!("chunk {len} {total} {nfree}"));
             // ---- the cell, as leaf_stage builds it
             let hash = r.bytes32();
-            let cell = ovf::encode_cell(len, hash, &cell_pns);
-            c.out.line(format!("cell {len} {} {}", hex(&hash), list_str(&cell_pns)), format!("ok {}", hex(&cell)));
+            let cell_op = format!("cell {len} {} {}", hex(&hash), list_str(&cell_pns));
+            let cell = match catch_unwind(|| ovf::encode_cell(len, hash, &cell_pns)) {
+                Ok(cell) => cell,
+                Err(_) => {
+                    c.out.line(cell_op, "panic".into());
+                    c.out.fail(format!("C16 encode_cell panicked on the result of chunk ({})", c.tag));
+                    continue;
+                }
+            };
+            c.out.line(cell_op, format!("ok {}", hex(&cell)));
+            if cell != mk_cell(len, hash, &cell_pns) {
+                c.out.fail(format!("C16 encode_cell of the result of chunk is not size ‖ hash ‖ page numbers ({})", c.tag));
+            }
             if !big {
                 c.read(&cell, Some(&value));
                 for kind in 0..3 {
@@ -617,35 +638,44 @@ pub fn run(seed: u64, cases: usize, out: &mut Sink) {
                 c.aread(&cell, &s, Some(&value), false);
             } else {
                 // too long for the model's list-based reader: the oracle alone
-                let v = c.sim.read_blocking(&cell);
-                if v != value {
-                    c.out.fail(format!("C01 read_blocking returned a wrong value ({})", c.tag));
-                }
                 let s = schedule(&mut r, total, 0);
-                let mut ar = c.sim.async_reader(&cell);
-                let mut outst: Vec<(usize, u32, u64)> = Vec::new();
-                let mut got = None;
-                for a in &s {
-                    match a {
-                        None => {
-                            if let Some(x) = ar.submit() {
-                                outst.push(x)
+                let sim = &c.sim;
+                let res = catch_unwind(AssertUnwindSafe(|| {
+                    let v = sim.read_blocking(&cell);
+                    let mut ar = sim.async_reader(&cell);
+                    let mut outst: Vec<(usize, u32, u64)> = Vec::new();
+                    let mut got = None;
+                    for a in &s {
+                        match a {
+                            None => {
+                                if let Some(x) = ar.submit() {
+                                    outst.push(x)
+                                }
                             }
-                        }
-                        Some(_) => {
-                            if outst.is_empty() {
-                                continue;
-                            }
-                            let (i, _, t) = outst.remove(0);
-                            if let Ok(Some(v)) = ar.complete(i, t) {
-                                got = Some(v);
-                                break;
+                            Some(_) => {
+                                if outst.is_empty() {
+                                    continue;
+                                }
+                                let (i, _, t) = outst.remove(0);
+                                if let Ok(Some(v)) = ar.complete(i, t) {
+                                    got = Some(v);
+                                    break;
+                                }
                             }
                         }
                     }
-                }
-                if got.as_deref() != Some(&value[..]) {
-                    c.out.fail(format!("C01 the AsyncReader did not return the value ({})", c.tag));
+                    (v, got)
+                }));
+                match res {
+                    Err(_) => c.out.fail(format!("C01 a reader panicked on an honest chain ({})", c.tag)),
+                    Ok((v, got)) => {
+                        if v != value {
+                            c.out.fail(format!("C01 read_blocking returned a wrong value ({})", c.tag));
+                        }
+                        if got.as_deref() != Some(&value[..]) {
+                            c.out.fail(format!("C01 the AsyncReader did not return the value ({})", c.tag));
+                        }
+                    }
                 }
             }
             let prefix: Vec<u32> = (0..r.below(4)).map(|_| 900_000 + r.below(50) as u32).collect();
@@ -681,23 +711,25 @@ fn malformed(c: &mut Case, r: &mut Rng, value: &[u8], cell: &[u8], pages: &[u32]
     let names = ["cell_size_up", "cell_size_down", "cell_fewer_pages", "cell_more_pages", "page_np_too_big", "page_nb_too_big", "page_fewer_pointers", "page_zero", "page_pointer_outside", "page_short_bytes"];
     c.out.count(&format!("malformed_{}", names[kind]));
     c.tag = format!("{} malformed {}", c.tag, names[kind]);
-    let (_, hash, cell_pns) = ovf::decode_cell(cell);
+    // the harness's own reading of the cell (not the code under test)
+    let hash: [u8; 32] = cell[8..40].try_into().unwrap();
+    let cell_pns: Vec<u32> = cell[40..].chunks(4).map(|c| u32::from_le_bytes(c.try_into().unwrap())).collect();
     let mut bad_cell = cell.to_vec();
     let mut repair: Option<(u32, Vec<u8>)> = None;
     let mut all_in_file = true;
     match kind {
-        0 => bad_cell = ovf::encode_cell(len + *r.pick(&[1usize, 4092, 70_000]), hash, &cell_pns),
-        1 => bad_cell = ovf::encode_cell(len.saturating_sub(*r.pick(&[1usize, 2, 4092])).max(1), hash, &cell_pns),
+        0 => bad_cell = mk_cell(len + *r.pick(&[1usize, 4092, 70_000]), hash, &cell_pns),
+        1 => bad_cell = mk_cell(len.saturating_sub(*r.pick(&[1usize, 2, 4092])).max(1), hash, &cell_pns),
         2 => {
             if cell_pns.len() < 2 {
                 return;
             }
-            bad_cell = ovf::encode_cell(len, hash, &cell_pns[..cell_pns.len() - 1])
+            bad_cell = mk_cell(len, hash, &cell_pns[..cell_pns.len() - 1])
         }
         3 => {
             let mut p = cell_pns.clone();
             p.push(pages[0]);
-            bad_cell = ovf::encode_cell(len, hash, &p)
+            bad_cell = mk_cell(len, hash, &p)
         }
         _ => {
             // a page of the chain: the first (pointers, if any) or a random one
@@ -705,6 +737,10 @@ fn malformed(c: &mut Case, r: &mut Rng, value: &[u8], cell: &[u8], pages: &[u32]
             let pn = pages[idx];
             let orig = c.sim.read_page(pn).expect("read scratch page");
             let (np, nb, _) = page_prefix(&orig);
+            if 4 + 4 * np + nb > PAGE {
+                // the page is already broken (reported by the chunk oracle)
+                return;
+            }
             repair = Some((pn, orig.clone()));
             let body = &orig[4..];
             match kind {
@@ -731,7 +767,7 @@ fn malformed(c: &mut Case, r: &mut Rng, value: &[u8], cell: &[u8], pages: &[u32]
                         let k = r.below(p.len());
                         p[k] = target;
                         all_in_file = in_file(&p, c.file_pages);
-                        bad_cell = ovf::encode_cell(len, hash, &p);
+                        bad_cell = mk_cell(len, hash, &p);
                         repair = None;
                     }
                 }
